@@ -520,6 +520,9 @@ func runC20(rc *runCtx) error {
 	rc.stats["float_stream"] = map[string]any{"trials": nfl, "max_relative_error": maxRel, "at_length": worstN, "bound_violations": violations,
 		"note": "TEST judged by the harness: |asm - float64 reference| <= n*2^-23*sum|terms| + tiny"}
 	// ---------------- stream pq (c20pq.go)
+	if err := c20StoreBitsStream(rc, fs, note, hist); err != nil {
+		return err
+	}
 	if err := c20PQStream(rc, fs, note, hist); err != nil {
 		return err
 	}
